@@ -15,8 +15,10 @@ mod binary;
 mod cmd;
 mod conn;
 mod metrics;
+mod net;
 mod replay;
 mod resp;
+mod slow;
 mod util;
 mod val;
 mod wire;
